@@ -40,6 +40,19 @@ impl Tree {
         v.sort();
         v
     }
+    /// The statement's "directory tree with valid names": names non-empty without '.', '/', NUL;
+    /// every directory of an entry is listed; no two files with one (id, ext), no two directories
+    /// with one id; an extension-less file and a directory do not share a name.
+    pub fn valid(&self) -> bool {
+        let name_ok = |n: &String| !n.is_empty() && !n.contains(['.', '/', '\0']);
+        let ext_ok = |n: &String| !n.contains(['.', '/', '\0']);
+        let listed = |d: &[String]| d.is_empty() || self.dirs.iter().any(|q| q == d);
+        self.files.iter().all(|f| f.dir.iter().all(name_ok) && name_ok(&f.stem) && ext_ok(&f.ext) && listed(&f.dir))
+            && self.dirs.iter().all(|q| !q.is_empty() && q.iter().all(name_ok) && listed(&q[..q.len() - 1]))
+            && { let mut k: Vec<(String, &String)> = self.files.iter().map(|f| (f.id(), &f.ext)).collect(); k.sort(); k.windows(2).all(|w| w[0] != w[1]) }
+            && { let mut k: Vec<&Vec<String>> = self.dirs.iter().collect(); k.sort(); k.windows(2).all(|w| w[0] != w[1]) }
+            && self.files.iter().all(|f| !f.ext.is_empty() || !self.dirs.iter().any(|q| join_id(q) == f.id()))
+    }
     pub fn is_extless_file(&self, id: &str) -> bool { self.files.iter().any(|f| f.ext.is_empty() && f.id() == id) }
     pub fn lines(&self) -> Vec<String> {
         let mut l = vec![];
@@ -346,7 +359,7 @@ impl Setup {
 
     pub fn is_archive(&self) -> bool { self.kind == "zip" || self.kind == "tar" }
     /// Is the opened source a faithful container of the tree (then the oracle applies)?
-    pub fn of_tree(&self) -> bool { !self.is_archive() || archives(&self.tree, &self.members) }
+    pub fn of_tree(&self) -> bool { self.tree.valid() && (!self.is_archive() || archives(&self.tree, &self.members)) }
 }
 
 /// Gen lines for tree + members + open for a source kind chosen by the caller.
